@@ -65,7 +65,7 @@ def standin_rejection_histories(tier, seed):
     uniq = {v["key"]: v for v in violations}
     return dict(evaluations=evals, distinct_nontrivial=len(distinct),
                 rule="one evaluation = one (reads before, proposal, reads between, rejection) history on a real model state compared variable by variable with the same history without the proposal",
-                samples=samples, violations=list(uniq.values())[:8],
+                samples=samples, violations=list(uniq.values())[:60],
                 bound=dict(model_kinds=len(kinds), read_sets=4, exhaustive=True))
 
 
